@@ -751,7 +751,10 @@ func lexPredicate(l *lexer) stateFn {
 	for done := false; !done; {
 		switch r := l.next(); r {
 		case backSlash:
-			if nr := l.peek(); nr == quote {
+			// The ID is printed with %q: a backslash escapes the rune that follows
+			// it, a quote or another backslash ("a\\" ends with an escaped backslash,
+			// not with an escaped quote).
+			if nr := l.peek(); nr == quote || nr == backSlash {
 				l.next()
 				continue
 			}
